@@ -1318,6 +1318,9 @@ _PLAN = {"should_not": "should_not", "behavior": "_SHOULD_ONLY if self._should_o
 variant("conv-planned-methodcaller-slices", {DCV: _PLANNED % _PLAN})
 variant("conv-planned-slices-chain-from-zero", {DCV: _PLANNED % {**_PLAN, "candidates": "list(itertools.chain(modules_in_order[0:position], modules_in_order[1 + position:]))"}})
 variant("conv-planned-enumerate-copy-inequality", {DCV: _PLANNED % {**_PLAN, "enumerated": "list(modules_in_order)", "candidates": "[m for i, m in enumerate(modules_in_order) if i != position]"}})
+variant("conv-planned-del-position", {DCV: (_PLANNED % {**_PLAN, "candidates": "list(modules_in_order)"}).replace("            not_imported = [", "            del candidates[position]\n            not_imported = [")})
+variant("conv-planned-pop-position-filterfalse", {DCV: (_PLANNED % {**_PLAN, "candidates": "modules_in_order.copy()"}).replace("            not_imported = [module for module in candidates if module not in imported]", "            candidates.pop(position)\n            not_imported = list(itertools.filterfalse(imported.__contains__, candidates))")})
+variant("conv-BREAK-planned-pop-next-position", {DCV: (_PLANNED % {**_PLAN, "candidates": "modules_in_order.copy()"}).replace("            not_imported = [", "            candidates.pop(position + 1) if position + 1 < len(candidates) else None\n            not_imported = [")}, expect="C07.R1")
 variant("conv-BREAK-planned-self-kept", {DCV: _PLANNED % {**_PLAN, "candidates": "modules_in_order[:position] + modules_in_order[position:]"}}, expect="C07.R1")
 variant("conv-BREAK-planned-predecessors-only", {DCV: _PLANNED % {**_PLAN, "candidates": "modules_in_order[:position]"}}, expect="C07.R1")
 variant("conv-BREAK-planned-two-skipped", {DCV: _PLANNED % {**_PLAN, "candidates": "modules_in_order[:position] + modules_in_order[position + 2 :]"}}, expect="C07.R1")
